@@ -117,17 +117,29 @@ func verifH_C16_slots() {
 	verifReach("end")
 }
 
-//verif:harness id=C16 tier=quick,thorough witness=end bounds="operation-level references (parameter, request body, response, response header, schema in content, callback) to external files: the same file under two spellings (x.json and ./d/../x.json), two different files with equally named components (x.json and d/y.json 'Own'), and a file that refers back into the root document; after InternalizeRefs distinct targets have distinct component names, equal targets one name"
+//verif:harness id=C16 tier=quick,thorough witness=end bounds="operation-level references (parameter, request body, response, response header, schema in content, callback) to external files: the same file under two spellings (x.json and ./d/../x.json), two different files with equally named components (x.json and d/y.json 'Own'), a file that refers back into the root document, two versions of one file name (m.v1 / m.v2) and a directory-versus-underscore pair (a/b_c, a_b/c); after InternalizeRefs distinct targets have distinct component names, equal targets one name"
 func verifH_C16_operation_refs() {
-	shape := verifChoose("shape", 3)
+	shape := verifChoose("shape", 5)
 	a, b := "x.json#/components/schemas/T", "./d/../x.json#/components/schemas/T" // same target, two spellings
 	switch shape {
 	case 1:
 		b = "d/y.json#/components/schemas/Own" // different file, different content location
 	case 2:
 		b = "back.json#/components/schemas/B" // refers back into the root
+	case 3:
+		// two versions of a file: only the dotted middle part of the name differs
+		a, b = "m.v1.json#/components/schemas/X", "m.v2.json#/components/schemas/X"
+	case 4:
+		// directory separator versus underscore
+		a, b = "a/b_c.json#/components/schemas/X", "a_b/c.json#/components/schemas/X"
 	}
+	// known finding: the default name resolver maps these pairs of distinct targets to one name
+	verifKnown("C16-default-names-collide", shape == 3 || shape == 4)
 	files := verifFiles()
+	files["/r/m.v1.json"] = `{"components":{"schemas":{"X":{"type":"string","minLength":1}}}}`
+	files["/r/m.v2.json"] = `{"components":{"schemas":{"X":{"type":"string","minLength":2}}}}`
+	files["/r/a/b_c.json"] = `{"components":{"schemas":{"X":{"type":"string","minLength":3}}}}`
+	files["/r/a_b/c.json"] = `{"components":{"schemas":{"X":{"type":"string","minLength":4}}}}`
 	files["/r/back.json"] = `{"components":{"schemas":{"B":{"type":"object","properties":{"r":{"$ref":"doc.json#/components/schemas/Local"}}}}}}`
 	rootText := `{"openapi":"3.0.0","info":{"title":"t","version":"1"},"paths":{"/a":{"post":{"operationId":"op",` +
 		`"parameters":[{"$ref":"x.json#/components/parameters/T"}],"requestBody":{"$ref":"x.json#/components/requestBodies/T"},` +
